@@ -333,6 +333,61 @@ Theorem C03_insertion_that_is_not_retargeted_is_read_by_exactly_the_listed_opera
 Proof. exact insertion_after_steps_readers. Qed.
 Print Assumptions C03_insertion_that_is_not_retargeted_is_read_by_exactly_the_listed_operators.
 
+(* RE-TARGETING included.  An earlier insertion on the same tensor that lists ALL
+   consumers of the last instruction re-targets it onto its own result
+   (update_instructions; horizontal grouping produces exactly such nests: a group
+   at depth d+1 lies inside one group at depth d).  For every list in which each
+   earlier instruction is in place, or lists none of the last instruction's
+   consumers, or lists all of them (`ok_list`), the LAST instruction's new tensor
+   is read, after the whole run, by exactly the original operators it lists, at
+   the operand slots where they read t in the input model — although the tensor
+   the instruction names changes along the run.  (Only consumer lists that
+   overlap partially are outside this statement; the generator cannot emit
+   them — checked by correspondence T, not proved.) *)
+Theorem C03_last_instruction_of_a_nested_list_is_read_by_exactly_the_listed_operators :
+  forall m0 pre ti0 post m' k g0 steps i0,
+    Forall wf_sg (m_subgraphs m0) -> uids_ok m0 ->
+    (forall ti i, In ti (pre ++ ti0 :: post) -> In i (ti_insts ti) -> sane m0 (ti_sg ti) i) ->
+    ids_ok (pre ++ ti0 :: post) ->
+    nth_opt (m_subgraphs m0) k = Some g0 ->
+    ti_sg ti0 = Z.of_nat k -> ti_insts ti0 = steps ++ [i0] ->
+    ok_list (i_consumers i0) steps -> (forall s, In s steps -> i_tensor s = i_tensor i0) ->
+    (i_trans i0 = Tr_ADD_QUANTIZE \/ i_trans i0 = Tr_ADD_DEQUANTIZE) ->
+    Forall (fun c => -1 <= c) (i_consumers i0) ->
+    never_names k (i_tensor i0) pre ->
+    transform_graph m0 (pre ++ ti0 :: post) = Ok m' ->
+    exists x' g', nth_opt (m_subgraphs m') k = Some g' /\ ntens g0 <= x' /\
+                  readers_profile x' g' = moved_profile (i_tensor i0) (i_consumers i0) g0.
+Proof. exact last_instruction_readers. Qed.
+Print Assumptions C03_last_instruction_of_a_nested_list_is_read_by_exactly_the_listed_operators.
+
+(* non-vacuity of the nest: [ADD_QUANTIZE for ops 0 and 1; ADD_DEQUANTIZE for op 1]
+   on the input of two readers: the second instruction is re-targeted onto tensor 3,
+   its own new tensor 4 is read by operator 1 only *)
+Example C03_nested_list_nonvacuous :
+  let p := Some {| qp_id := 5; qp_uniform := true; qp_bits := 8; qp_has_data := false |} in
+  let tf r := {| t_root := r; t_sfx := []; t_shape := 0; t_ty := TY_FLOAT32; t_buf := 0; t_q := None |} in
+  let m := {| m_subgraphs := [{| sg_tensors := [tf 0; tf 1; tf 2];
+                                 sg_ops := [{| o_code := 0; o_ins := [0]; o_outs := [1]; o_uid := 0 |};
+                                            {| o_code := 0; o_ins := [0]; o_outs := [2]; o_uid := 1 |}];
+                                 sg_inputs := [0]; sg_outputs := [1; 2] |}];
+              m_buffers := [BEmpty]; m_opcodes := [0]; m_sigs := [] |} in
+  let s := {| i_trans := Tr_ADD_QUANTIZE; i_tensor := 0; i_producer := -1; i_consumers := [0; 1]; i_params := p |} in
+  let i0 := {| i_trans := Tr_ADD_DEQUANTIZE; i_tensor := 0; i_producer := -1; i_consumers := [1]; i_params := p |} in
+  ok_list (i_consumers i0) [s] /\
+  match transform_graph m [{| ti_name := (0, []); ti_sg := 0; ti_insts := [s; i0] |}] with
+  | Ok m' => option_map (readers_profile 4) (nth_opt (m_subgraphs m') 0) = Some [(0, [false]); (1, [true])] /\
+             option_map (moved_profile 0 [1]) (nth_opt (m_subgraphs m) 0) = Some [(0, [false]); (1, [true])]
+  | Err _ => False end.
+Proof.
+  split.
+  - cbn [ok_list]. split; [|split; [|exact I]].
+    + split; [cbn; lia|]. split; [repeat constructor; cbn; lia|]. right. split; [left; reflexivity|].
+      right. split; [discriminate|]. intros c [<-|[]]. reflexivity.
+    + intros _ s2 [].
+  - vm_compute. split; reflexivity.
+Qed.
+
 (* non-vacuity: QUANTIZE inserted on the graph input of x --op--> y for consumer
    0: the new tensor 2 is read by the operator with uid 0 at slot 0 *)
 Example C03_inserted_readers_nonvacuous :
